@@ -24,21 +24,30 @@ typedef int (*part_fn)(const char *, const char *);
 static part_fn LOCAL[4] = { is_822_local, is_5321_local, is_5322_local, is_6531_local };
 static const EAV_RFC RFC[4] = { EAV_RFC_822, EAV_RFC_5321, EAV_RFC_5322, EAV_RFC_6531 };
 static int C_ADDR, C_CALLS, CURPH;
+#ifdef ASCII_ONLY      /* MemorySanitizer step: libidn2 is not instrumented, so only the three ASCII modes and the ASCII part validators run */
+#define NM 3
+#else
+#define NM 4
+#endif
 static volatile long SINKHOLE;
 
 #ifdef GUARD
+#define ROCAP (256 * 1024)
+static unsigned char *RO;
 static unsigned char *PAGES; static size_t PG, NPG = 20;       /* [guard][NPG data pages][guard] */
 static void guard_init(void) {
     PG = (size_t)sysconf(_SC_PAGESIZE);
     PAGES = mmap(NULL, PG * (NPG + 2), PROT_READ | PROT_WRITE, MAP_PRIVATE | MAP_ANONYMOUS, -1, 0);
     if (PAGES == MAP_FAILED) { perror("mmap"); exit(2); }
     mprotect(PAGES, PG, PROT_NONE); mprotect(PAGES + PG * (NPG + 1), PG, PROT_NONE);
+    RO = mmap(NULL, ROCAP, PROT_READ | PROT_WRITE, MAP_PRIVATE | MAP_ANONYMOUS, -1, 0); if (RO == MAP_FAILED) { perror("mmap"); exit(2); }
 }
 /* placement 0: terminator is the last byte before the guard page; 1: first byte right after the leading guard page */
 static char *place(const unsigned char *s, size_t n, int placement) {
     if (n + 1 > PG * NPG) return NULL;
     char *p = placement == 0 ? (char *)PAGES + PG * (NPG + 1) - (n + 1) : (char *)PAGES + PG;
-    memcpy(p, s, n); p[n] = 0; return p;
+    memcpy(p, s, n); p[n] = 0;
+    return p;
 }
 static void unplace(char *p) { (void)p; }
 #define NPLACE 2
@@ -50,9 +59,9 @@ static void unplace(char *p) { free(p); }
 
 static void drive(const char *p, size_t n) {
     long acc = 0;
-    for (int m = 0; m < 4; m++) for (int t = 0; t < 2; t++) { eav_result_t *r = EMAIL[m](p, n, t); acc += r->rc; eav_result_free(r); MC_ADD(C_CALLS, 1); }
+    for (int m = 0; m < NM; m++) for (int t = 0; t < 2; t++) { eav_result_t *r = EMAIL[m](p, n, t); acc += r->rc; eav_result_free(r); MC_ADD(C_CALLS, 1); }
     /* the object API, object in uninitialised-looking heap memory */
-    for (int m = 0; m < 4; m++) {
+    for (int m = 0; m < NM; m++) {
         eav_t *e = malloc(sizeof *e); memset(e, 0xA5, sizeof *e);
         eav_init(e); e->rfc = RFC[m]; e->tld_check = (m & 1); if (m == 2) e->allow_tld = 0;
         if (eav_setup(e) == 0) { acc += eav_is_email(e, p, n); const char *msg = eav_errstr(e); acc += msg ? msg[0] : 0; acc += eav_is_email(e, p, n); }
@@ -67,19 +76,49 @@ static void drive_part(const unsigned char *s, size_t n, int kind) {
     for (int pl = 0; pl < NPLACE; pl++) {
         char *p = place(s, n, pl); if (!p) return;
         long acc = 0;
-        if (kind == 0) for (int m = 0; m < 4; m++) acc += LOCAL[m](p, p + n);
+        if (kind == 0) for (int m = 0; m < NM; m++) acc += LOCAL[m](p, p + n);
         else {
             acc += is_ascii_domain(p, p + n); acc += is_ipv4(p, p + n); acc += is_ipv6(p, p + n); acc += is_ipaddr(p, p + n);
             acc += is_tld(p, p + n); if (n) acc += is_special_domain(p, p + n);
+#ifndef ASCII_ONLY
             int ir = 0; acc += is_utf8_domain(&ir, p, p + n, true); acc += is_utf8_domain(&ir, p, p + n, false);
+#endif
         }
         MC_ADD(C_CALLS, kind ? 8 : 4); MC_ADD(C_EVAL, kind ? 8 : 4);
         SINKHOLE += acc; unplace(p);
     }
 }
+#ifdef GUARD
+/* "the library writes only to its own result object": inputs are collected in a second region which is then made READ-ONLY as a whole; the
+ * whole-address calls and the domain validators run on every collected input - a validator that writes into the caller's string, even if it puts the
+ * byte back afterwards, faults there (the batch amortises the mprotect calls) */
+static size_t ro_used; static struct { size_t off, n; } ro_item[4096]; static int ro_n;
+static void ro_flush(void) {
+    if (!ro_n) return;
+    mprotect(RO, ROCAP, PROT_READ);
+    for (int i = 0; i < ro_n; i++) {
+        const char *p = (const char *)RO + ro_item[i].off; size_t n = ro_item[i].n; long acc = 0;
+        mc_current(corpus_name(CURPH), "readonly=1", (const unsigned char *)p, n);
+        for (int m = 0; m < NM; m++) for (int t = 0; t < 2; t++) { eav_result_t *r = EMAIL[m](p, n, t); acc += r->rc; eav_result_free(r); }
+        const char *at = NULL; for (size_t k = n; k > 0; k--) if (p[k - 1] == '@') { at = p + k - 1; break; }
+        if (at) { const char *d = at + 1, *e = p + n; acc += is_ascii_domain(d, e); acc += is_special_domain(d, e); acc += is_ipaddr(d, e); const char *dot = e; while (dot > d && dot[-1] != '.') dot--; acc += is_tld(dot, e);
+                  for (int m = 0; m < NM; m++) acc += LOCAL[m](p, at); }
+        MC_ADD(C_CALLS, 16); MC_ADD(C_EVAL, 16); SINKHOLE += acc;
+    }
+    mprotect(RO, ROCAP, PROT_READ | PROT_WRITE); ro_used = 0; ro_n = 0;
+}
+static void ro_add(const unsigned char *s, size_t n) {
+    if (n + 1 > ROCAP) return;
+    if (ro_used + n + 1 > ROCAP || ro_n == 4096) ro_flush();
+    memcpy(RO + ro_used, s, n); RO[ro_used + n] = 0; ro_item[ro_n].off = ro_used; ro_item[ro_n].n = n; ro_n++; ro_used += n + 1;
+}
+#endif
 static void sink(const unsigned char *s, size_t n, void *arg) {
     (void)arg;
     for (size_t i = 0; i < n; i++) if (!s[i]) return;
+#ifdef GUARD
+    ro_add(s, n);
+#endif
     mc_current(corpus_name(CURPH), "", s, n); MC_ADD(C_ADDR, 1);
     for (int pl = 0; pl < NPLACE; pl++) { char *p = place(s, n, pl); if (!p) return; drive(p, n); unplace(p); }
     drive_part(s, n, 0); drive_part(s, n, 1);
@@ -96,6 +135,9 @@ static void sink(const unsigned char *s, size_t n, void *arg) {
 }
 static void phase_shard(long shard, void *arg) {
     (void)arg; corpus_run(CURPH, shard, sink, NULL);
+#ifdef GUARD
+    ro_flush();
+#endif
 #ifdef HAVE_LSAN
     if (__lsan_do_recoverable_leak_check()) {
         char cfg[64]; snprintf(cfg, sizeof cfg, "phase=%d shard=%ld", CURPH, shard);
@@ -125,8 +167,11 @@ static void huge_shard(long shard, void *arg) {
     char *p = huge_build(shape, sz, &n);
     drive(p, n);
     const char *at = strrchr(p, '@'); if (at) { const char *d = at + 1; long acc = 0; int ir = 0;
-        acc += is_ascii_domain(d, p + n); acc += is_utf8_domain(&ir, d, p + n, true); acc += is_special_domain(d, p + n);
-        for (int m = 0; m < 4; m++) acc += LOCAL[m](p, at);
+        acc += is_ascii_domain(d, p + n); acc += is_special_domain(d, p + n); (void)ir;
+#ifndef ASCII_ONLY
+        acc += is_utf8_domain(&ir, d, p + n, true);
+#endif
+        for (int m = 0; m < NM; m++) acc += LOCAL[m](p, at);
         SINKHOLE += acc; MC_ADD(C_CALLS, 7); MC_ADD(C_EVAL, 7); }
     free(p);
 }
@@ -136,7 +181,11 @@ static int do_replay(void) {
     mc_replay_hit = 0;
     if (!strcmp(r.sub, "huge") || !strcmp(r.sub, "crash:huge")) { HUGE_SZ[0] = (size_t)strtoull(strstr(r.cfg, "size=") + 5, NULL, 10); huge_shard(mc_cfg_int(r.cfg, "shape", 0), NULL); }
     else if (!strcmp(r.sub, "leak")) { CURPH = (int)mc_cfg_int(r.cfg, "phase", 0); phase_shard(mc_cfg_int(r.cfg, "shard", 0), NULL); }
-    else { const char *q = r.sub; if (!strncmp(q, "crash:", 6)) q += 6; for (int i = 0; i < CP_N; i++) if (!strncmp(q, corpus_name(i), strlen(q))) CURPH = i; sink(r.in, (size_t)r.len, NULL); }
+    else { const char *q = r.sub; if (!strncmp(q, "crash:", 6)) q += 6; for (int i = 0; i < CP_N; i++) if (!strncmp(q, corpus_name(i), strlen(q))) CURPH = i; sink(r.in, (size_t)r.len, NULL);
+#ifdef GUARD
+        ro_flush();
+#endif
+    }
     printf("replay %s: %s\n", mc_replay, mc_replay_hit ? "VIOLATION reproduced" : "no violation (a crash would have killed this process)");
     return mc_replay_hit ? 1 : 0;
 }
